@@ -575,10 +575,92 @@ func c05Jobs(tier string, rnd *Rand, withFaults bool) []c05Job {
 		}
 		if withFaults {
 			c06AddFaults(rnd, g)
+		} else if g.Max == 0 && rnd.Chance(1, 3) {
+			g.addRemote(rnd)
 		}
 		jobs = append(jobs, c05Job{g, mkPicks(rnd, nSched)})
 	}
 	return jobs
+}
+
+// remote-style leaf files (//host/org/repo/file.sysl) imported under version spellings: the version is not
+// part of a file's identity; master/main/develop and no version are one version, anything else is its own
+var c05VersionClasses = [][]string{{"", "@main", "@master", "@develop"}, {"@v1.0.0"}, {"@feature/login"}, {"@release/2024/q1"}, {"@v2"}}
+
+func (g *cGraph) addRemote(r *Rand) {
+	local := g.N
+	for k := 0; k < 1+r.Intn(2); k++ {
+		t := g.N
+		g.N++
+		g.Paths = append(g.Paths, fmt.Sprintf("/github.com/org/repo/r%d.sysl", t))
+		g.Imports = append(g.Imports, nil)
+		g.Spell = append(g.Spell, nil)
+		class := Pick(r, c05VersionClasses)
+		mixed := r.Chance(1, 3)
+		for j := 0; j < 1+r.Intn(3); j++ {
+			from := r.Intn(local)
+			ver := Pick(r, class)
+			if mixed {
+				ver = Pick(r, Pick(r, c05VersionClasses))
+			}
+			name := fmt.Sprintf("//github.com/org/repo/r%d", t)
+			if r.Bool() {
+				name += ".sysl"
+			}
+			g.Imports[from] = append(g.Imports[from], t)
+			g.Spell[from] = append(g.Spell[from], name+ver)
+		}
+	}
+}
+
+func c05EffectiveVersion(spelling string) string {
+	i := strings.Index(spelling, "@")
+	if i < 0 {
+		return ""
+	}
+	switch v := spelling[i+1:]; v {
+	case "master", "main", "develop":
+		return ""
+	default:
+		return v
+	}
+}
+
+// versionConflict: some file is imported, by files of the closure, under two different versions
+func (g *cGraph) versionConflict() bool {
+	reach := map[int]bool{0: true}
+	q := []int{0}
+	for len(q) > 0 {
+		x := q[0]
+		q = q[1:]
+		for _, c := range g.Imports[x] {
+			if !reach[c] {
+				reach[c] = true
+				q = append(q, c)
+			}
+		}
+	}
+	vers := map[int]map[string]bool{}
+	for i := 0; i < g.N; i++ {
+		if !reach[i] {
+			continue
+		}
+		for k, t := range g.Imports[i] {
+			if !strings.HasPrefix(g.Paths[t], "/github.com/") {
+				continue
+			}
+			if vers[t] == nil {
+				vers[t] = map[string]bool{}
+			}
+			vers[t][c05EffectiveVersion(g.Spell[i][k])] = true
+		}
+	}
+	for _, vs := range vers {
+		if len(vs) > 1 {
+			return true
+		}
+	}
+	return false
 }
 
 func c05Corpus() []*cGraph {
@@ -769,6 +851,14 @@ func c05Execute(res *Result, jobs []c05Job, faults bool) {
 			if c > 1 && f >= 0 && f < g.N {
 				res.Violate(Violation{Sig: "fetched-twice", What: fmt.Sprintf("file %s was fetched %d times", g.Paths[f], c), Input: in, Got: run.Arrivals})
 			}
+		}
+		if !faults && g.versionConflict() {
+			// one file under two versions: refused, whatever the order of arrival
+			res.Count("version-conflict")
+			if !strings.Contains(run.Err, "different versions") || run.HasMod {
+				res.Violate(Violation{Sig: "version-conflict-accepted", What: "a file imported under two different versions was not refused", Input: in, Got: map[string]any{"err": run.Err, "files": run.Files, "arrivals": run.Arrivals}})
+			}
+			continue
 		}
 		// ---- model vs implementation ----
 		mfiles, hasFiles := m["files"]
